@@ -626,3 +626,46 @@ def dispatch_statements(block, runvar="run_number"):
         elif isinstance(st, If) and st.other is None and mentions(st, {runvar}) and k < len(block.stmts) - 1:
             early.append((k, st))
     return early, lets
+
+
+# ------------------------------------------------------------------------------------------------ semantic fallback
+def reconstruct(what, runs, domains, known, matches, no_map):
+    """Reconstruct the dispatches the front end could not read from the implementation's answers.
+
+    runs     candidate run numbers (sorted; contain 0, u32::MAX-1, u32::MAX)
+    domains  {family: [candidate values] | function run -> [candidate values]}  (None = "no map" is always a candidate)
+    known    {family: canonical arms} for the families that were read syntactically
+    matches(selection {family: value | None}, run) -> bool : does this selection reproduce the implementation's COMPLETE answer
+    no_map(run) -> bool : the implementation answers "no map" for every entry at this run
+
+    Where the implementation has no map at all, a dispatch that is hidden behind another one's error cannot be observed:
+    every reconstructed dispatch says None there (the composition is the same function of the run number).
+    returns {family: canonical arms} for the families not in `known`; with every family known this is a pure check."""
+    import itertools
+    unknown = [f for f in domains if f not in known]
+    samples = {f: {} for f in unknown}
+    for r in runs:
+        sel = {f: apply_arms(known[f], r) for f in known}
+        choice = None
+        if no_map(r):
+            trial = dict(sel)
+            trial.update({f: None for f in unknown})
+            if matches(trial, r):
+                choice = trial
+        else:
+            doms = []
+            for f in unknown:
+                d = domains[f]
+                doms.append(list(d(r) if callable(d) else d) + [None])
+            for combo in itertools.product(*doms):
+                trial = dict(sel)
+                trial.update(zip(unknown, combo))
+                if matches(trial, r):
+                    choice = trial
+                    break
+        if choice is None:
+            raise GenError("%s: run %d: the implementation's answer is reproduced by no parsed table%s"
+                           % (what, r, "" if unknown else " under the dispatch read from the source"))
+        for f in unknown:
+            samples[f][r] = choice[f]
+    return {f: canonical_arms(samples[f]) for f in unknown}
